@@ -1319,6 +1319,17 @@ class TLSConnection(TLSRecordLayer):
         resuming = False
         if sr_psk:
             clPSK = clientHello.getExtension(ExtensionType.pre_shared_key)
+            if sr_psk.selected is None:
+                for result in self._sendError(
+                        AlertDescription.decode_error,
+                        "Empty pre_shared_key extension in ServerHello"):
+                    yield result
+            if clPSK is None or \
+                    sr_psk.selected >= len(clPSK.identities):
+                for result in self._sendError(
+                        AlertDescription.illegal_parameter,
+                        "Server selected PSK identity we did not offer"):
+                    yield result
             ident = clPSK.identities[sr_psk.selected]
             psk = [i[1] for i in settings.pskConfigs if i[0] == ident.identity]
             if psk:
